@@ -32,7 +32,7 @@ type tcase struct {
 	Pcts  map[string][]any `json:"pcts"`
 }
 
-var tagPool = []string{"", "0_2", "x_1__-1_3", "", "1_1_5", "abc"}
+var tagPool = []string{"", "0_2", "x_1__-1_3", "", "1_1_5", "abc", "1_x_x"}
 
 type built struct {
 	name string
@@ -148,6 +148,16 @@ func TestCases(t *testing.T) {
 			if c.Mode == "hist" {
 				tags = append(tags, "gsd_histogram:"+tagPool[c.Tag])
 			}
+			var many gostatsd.Tags
+			if idx%4 == 3 { // series with many tags: ten on the timer (one more with the bucket tag a backend adds), twelve on the gauge
+				for k := 0; k < 9; k++ {
+					tags = append(tags, fmt.Sprintf("t%d:v", k))
+				}
+				for k := 0; k < 12; k++ {
+					many = append(many, fmt.Sprintf("m%d:v", k))
+				}
+				res.Hit("many-tags")
+			}
 			rec := map[string]any{"values": c.Vals, "percentiles": pcts, "histogram_limit": limit, "tags": tags, "mask": fmt.Sprintf("%+v", g.mask), "batch": g.batch, "case": idx}
 			agg := statsd.NewMetricAggregator(pcts, 0, 0, 0, 0, g.mask, limit)
 			in := gostatsd.NewMetricMap(false)
@@ -159,7 +169,7 @@ func TestCases(t *testing.T) {
 				in.Receive(&gostatsd.Metric{Name: "t", Type: gostatsd.TIMER, Value: 1, Rate: 1, Tags: tags.Copy(), Timestamp: ts, Source: "10.0.0.1"})
 			}
 			in.Receive(&gostatsd.Metric{Name: "c", Type: gostatsd.COUNTER, Value: 3, Rate: 0.5, Tags: gostatsd.Tags{"solo", "k:v"}, Timestamp: ts, Source: "10.0.0.1"})
-			in.Receive(&gostatsd.Metric{Name: "g", Type: gostatsd.GAUGE, Value: -1.5, Rate: 1, Timestamp: ts})
+			in.Receive(&gostatsd.Metric{Name: "g", Type: gostatsd.GAUGE, Value: -1.5, Rate: 1, Tags: many, Timestamp: ts})
 			in.Receive(&gostatsd.Metric{Name: "s", Type: gostatsd.SET, StringValue: "x", Rate: 1, Tags: gostatsd.Tags{"k:v"}, Timestamp: ts, Source: "h"})
 			agg.ReceiveMap(in)
 			for flush := 1; flush <= 2; flush++ {
